@@ -29,8 +29,10 @@ theorem limitSet_setEs_full (s : St) : limitSet (setEs s esStackFull) :=
 
 /-! ### generic sequencing -/
 
-/-- property of a result that only concerns raised limit errors: their state carries a limit bit -/
-def BitsOk (r : Out × St) : Prop := ∀ k, r.1 = .raised k → k.isLimit = true → limitSet r.2
+/-- property of a result that only concerns raised limit errors: their state carries a limit bit, and an
+    evaluation-cost error carries ES_MAX_EVAL_COST -/
+def BitsOk (r : Out × St) : Prop :=
+  ∀ k, r.1 = .raised k → k.isLimit = true → limitSet r.2 ∧ (k = .cost → hasEs r.2 esMaxEvalCost = true)
 
 theorem BitsOk_ok (s : St) : BitsOk (.ok, s) := by intro k h; cases h
 theorem BitsOk_fuel (s : St) : BitsOk (.fuel, s) := by intro k h; cases h
@@ -42,92 +44,104 @@ theorem BitsOk_seqM {r : Out × St} {k : St → Out × St} (h1 : BitsOk r) (h2 :
   · exact h2 _
   · exact h1
 
-theorem raise_catch (cfg : Cfg) (k : Kind) (s : St) : raise cfg .catch_ k s = (.raised k, s) := rfl
-
-theorem BitsOk_raise_catch (cfg : Cfg) (k : Kind) (s : St) (h : k.isLimit = true → limitSet s) :
-    BitsOk (raise cfg .catch_ k s) := by
+theorem BitsOk_raise (cfg : Cfg) (ctx : Ctx) (k : Kind) (s : St)
+    (h : k.isLimit = true → limitSet s ∧ (k = .cost → hasEs s esMaxEvalCost = true)) :
+    BitsOk (raise cfg ctx k s) := by
   intro k' hk hl
-  simp only [raise_catch] at hk ⊢
+  unfold raise at hk ⊢
   cases hk
   exact h hl
 
-theorem BitsOk_tick (cfg : Cfg) (s : St) : BitsOk (tick cfg .catch_ s) := by
+theorem BitsOk_tick (cfg : Cfg) (ctx : Ctx) (s : St) : BitsOk (tick cfg ctx s) := by
   unfold tick
   simp only
   split
-  · apply BitsOk_raise_catch
+  · apply BitsOk_raise
     intro _
-    have := limitSet_setEs_cost { s with ticks := s.ticks + 1, cost := s.cost - 1 }
-    simpa [limitSet, hasEs, setEs] using this
+    have h := hasEs_setEs { s with ticks := s.ticks + 1, cost := s.cost - 1 } esMaxEvalCost (by decide)
+    have h' : hasEs { (setEs { s with ticks := s.ticks + 1, cost := s.cost - 1 } esMaxEvalCost) with cost := cfg.maxCost }
+        esMaxEvalCost = true := by simpa [hasEs, setEs] using h
+    exact ⟨Or.inl h', fun _ => h'⟩
   · exact BitsOk_ok _
 
-theorem BitsOk_ticksN (cfg : Cfg) (n : Nat) (s : St) : BitsOk (ticksN cfg .catch_ n s) := by
+theorem BitsOk_ticksN (cfg : Cfg) (ctx : Ctx) (n : Nat) (s : St) : BitsOk (ticksN cfg ctx n s) := by
   induction n generalizing s with
   | zero => exact BitsOk_ok _
   | succ n ih =>
     unfold ticksN
-    have ht := BitsOk_tick cfg s
+    have ht := BitsOk_tick cfg ctx s
     split
     · exact ih _
     · exact ht
 
-theorem BitsOk_spin (cfg : Cfg) (n : Nat) (s : St) : BitsOk (spin cfg .catch_ n s) := by
+theorem BitsOk_spin (cfg : Cfg) (ctx : Ctx) (n : Nat) (s : St) : BitsOk (spin cfg ctx n s) := by
   induction n generalizing s with
   | zero => exact BitsOk_fuel _
   | succ n ih =>
     unfold spin
-    have ht := BitsOk_tick cfg s
+    have ht := BitsOk_tick cfg ctx s
     split
     · exact ih _
     · exact ht
 
-theorem BitsOk_pushFrame (cfg : Cfg) (s : St) : BitsOk (pushFrame cfg .catch_ s) := by
+theorem BitsOk_pushFrame (cfg : Cfg) (ctx : Ctx) (s : St) : BitsOk (pushFrame cfg ctx s) := by
   unfold pushFrame
   split
-  · exact BitsOk_raise_catch _ _ _ (fun _ => limitSet_setEs_full s)
+  · exact BitsOk_raise _ _ _ _ (fun _ => ⟨limitSet_setEs_full s, fun h => by cases h⟩)
   · exact BitsOk_ok _
 
-theorem BitsOk_pushChecked (cfg : Cfg) (n : Nat) (s : St) : BitsOk (pushChecked cfg .catch_ n s) := by
+theorem BitsOk_pushChecked (cfg : Cfg) (ctx : Ctx) (n : Nat) (s : St) : BitsOk (pushChecked cfg ctx n s) := by
   unfold pushChecked
   split
-  · exact BitsOk_raise_catch _ _ _ (fun _ => limitSet_setEs_full s)
+  · exact BitsOk_raise _ _ _ _ (fun _ => ⟨limitSet_setEs_full s, fun h => by cases h⟩)
   · exact BitsOk_ok _
 
-theorem BitsOk_catchLanding (cfg : Cfg) (d0 p0 : Int) (k : Kind) (s : St) :
-    BitsOk (catchLanding cfg .catch_ d0 p0 k s) := by
+theorem BitsOk_catchLanding (cfg : Cfg) (ctx : Ctx) (d0 p0 : Int) (k : Kind) (s : St) :
+    BitsOk (catchLanding cfg ctx d0 p0 k s) := by
   unfold catchLanding
   simp only
   split
-  · apply BitsOk_raise_catch; intro _; left; simp [hasEs]; decide
+  · apply BitsOk_raise; intro _
+    have h : hasEs { (pushUnchecked (leave s d0 p0)) with es := esMaxEvalCost } esMaxEvalCost = true := by
+      simp [hasEs]; decide
+    exact ⟨Or.inl h, fun _ => h⟩
   · split
-    · apply BitsOk_raise_catch; intro _; right; simp [hasEs]; decide
+    · apply BitsOk_raise; intro _
+      have h : hasEs { (pushUnchecked (leave s d0 p0)) with es := esStackFull } esStackFull = true := by
+        simp [hasEs]; decide
+      exact ⟨Or.inr h, fun h => by cases h⟩
     · exact BitsOk_ok _
 
-/-- every limit error that is in flight towards a catch frame carries a limit bit in error_state -/
-theorem exec_BitsOk (cfg : Cfg) (fuel : Nat) (sh : Sh) (s : St) : BitsOk (exec cfg fuel .catch_ sh s) := by
-  induction fuel generalizing sh s with
+/-- every limit error in flight carries its bit in error_state, whatever the receiving context -/
+theorem exec_BitsOk (cfg : Cfg) (fuel : Nat) (ctx : Ctx) (sh : Sh) (s : St) : BitsOk (exec cfg fuel ctx sh s) := by
+  induction fuel generalizing ctx sh s with
   | zero => unfold exec; exact BitsOk_fuel _
   | succ f ih =>
     unfold exec
     cases sh with
     | skip => exact BitsOk_ok _
-    | work n => exact BitsOk_ticksN cfg n s
-    | spin => exact BitsOk_spin cfg _ s
-    | err => exact BitsOk_raise_catch _ _ _ (fun h => by cases h)
-    | throw_ => intro k hk hl; cases hk; cases hl
-    | seq a b => exact BitsOk_seqM (ih a s) (fun s => ih b s)
+    | work n => exact BitsOk_ticksN cfg ctx n s
+    | spin => exact BitsOk_spin cfg ctx _ s
+    | err => exact BitsOk_raise _ _ _ _ (fun h => by cases h)
+    | throw_ =>
+      cases ctx
+      · exact BitsOk_raise _ _ _ _ (fun h => by cases h)
+      · intro k hk hl; cases hk; cases hl
+      · exact BitsOk_raise _ _ _ _ (fun h => by cases h)
+    | seq a b => exact BitsOk_seqM (ih ctx a s) (fun s => ih ctx b s)
     | call locals body =>
-      exact BitsOk_seqM (BitsOk_pushFrame cfg s) fun s1 =>
-        BitsOk_seqM (BitsOk_pushChecked cfg locals s1) fun s2 =>
-        BitsOk_seqM (BitsOk_ticksN cfg _ s2) fun s3 =>
-        BitsOk_seqM (ih body s3) fun s4 => BitsOk_ok _
-    | recur locals => exact ih _ s
-    | crecur => exact ih _ s
+      exact BitsOk_seqM (BitsOk_pushFrame cfg ctx s) fun s1 =>
+        BitsOk_seqM (BitsOk_pushChecked cfg ctx locals s1) fun s2 =>
+        BitsOk_seqM (BitsOk_ticksN cfg ctx _ s2) fun s3 =>
+        BitsOk_seqM (ih ctx body s3) fun s4 => BitsOk_seqM (BitsOk_tick cfg ctx s4) fun s5 => BitsOk_ok _
+    | recur locals => exact ih ctx _ s
+    | crecur => exact ih ctx _ s
     | cb k body =>
       cases k with
       | zero => exact BitsOk_ok _
-      | succ k => exact BitsOk_seqM (ih _ s) (fun s => ih _ s)
+      | succ k => exact BitsOk_seqM (BitsOk_tick cfg ctx s) fun s => BitsOk_seqM (ih ctx _ s) (fun s => ih ctx _ s)
     | safe body =>
+      refine BitsOk_seqM (BitsOk_tick cfg ctx s) (fun s => ?_)
       simp only
       split
       · exact BitsOk_ok _
@@ -138,11 +152,11 @@ theorem exec_BitsOk (cfg : Cfg) (fuel : Nat) (sh : Sh) (s : St) : BitsOk (exec c
     | catch_ body =>
       simp only
       split
-      · exact BitsOk_raise_catch _ _ _ (fun _ => limitSet_setEs_full s)
+      · exact BitsOk_raise _ _ _ _ (fun _ => ⟨limitSet_setEs_full s, fun h => by cases h⟩)
       · split
         · exact BitsOk_ok _
         · exact BitsOk_fuel _
-        · exact BitsOk_catchLanding cfg _ _ _ _
+        · exact BitsOk_catchLanding cfg ctx _ _ _ _
 
 /-! ### no catch completes with a limit error -/
 
@@ -159,8 +173,7 @@ theorem EvOk_seqM {s : St} {r : Out × St} {k : St → Out × St} (h1 : EvOk s r
   · intro h0; exact h2 _ (h1 h0)
   · exact h1
 
-theorem raise_evs (cfg : Cfg) (ctx : Ctx) (k : Kind) (s : St) : (raise cfg ctx k s).2.evs = s.evs := by
-  unfold raise; cases ctx <;> simp <;> split <;> rfl
+theorem raise_evs (cfg : Cfg) (ctx : Ctx) (k : Kind) (s : St) : (raise cfg ctx k s).2.evs = s.evs := rfl
 
 theorem tick_evs (cfg : Cfg) (ctx : Ctx) (s : St) : (tick cfg ctx s).2.evs = s.evs := by
   unfold tick
@@ -252,14 +265,15 @@ theorem exec_EvOk (cfg : Cfg) (fuel : Nat) (ctx : Ctx) (sh : Sh) (s : St) : EvOk
       exact EvOk_seqM (EvOk_of_evs_eq (pushFrame_evs ..)) fun s1 =>
         EvOk_seqM (EvOk_of_evs_eq (pushChecked_evs ..)) fun s2 =>
         EvOk_seqM (EvOk_of_evs_eq (ticksN_evs ..)) fun s3 =>
-        EvOk_seqM (ih ctx body s3) fun s4 => EvOk_of_evs_eq rfl
+        EvOk_seqM (ih ctx body s3) fun s4 => EvOk_seqM (EvOk_of_evs_eq (tick_evs ..)) fun s5 => EvOk_of_evs_eq rfl
     | recur locals => exact ih ctx _ s
     | crecur => exact ih ctx _ s
     | cb k body =>
       cases k with
       | zero => exact EvOk_of_evs_eq rfl
-      | succ k => exact EvOk_seqM (ih ctx _ s) (fun s => ih ctx _ s)
+      | succ k => exact EvOk_seqM (EvOk_of_evs_eq (tick_evs ..)) fun s => EvOk_seqM (ih ctx _ s) (fun s => ih ctx _ s)
     | safe body =>
+      refine EvOk_seqM (EvOk_of_evs_eq (tick_evs ..)) (fun s => ?_)
       simp only
       split
       · exact EvOk_of_evs_eq rfl
@@ -278,7 +292,7 @@ theorem exec_EvOk (cfg : Cfg) (fuel : Nat) (ctx : Ctx) (sh : Sh) (s : St) : EvOk
       · generalize hs1 : pushCatchFrame s = s1
         have hev : s1.evs = s.evs := by rw [← hs1]; rfl
         have hi := ih .catch_ body s1
-        have hb := exec_BitsOk cfg f body s1
+        have hb := exec_BitsOk cfg f .catch_ body s1
         split
         · rename_i s2 heq; rw [heq] at hi
           intro h0; exact hi (by rw [hev]; exact h0)
@@ -286,7 +300,7 @@ theorem exec_EvOk (cfg : Cfg) (fuel : Nat) (ctx : Ctx) (sh : Sh) (s : St) : EvOk
           intro h0; exact hi (by rw [hev]; exact h0)
         · rename_i k s2 heq; rw [heq] at hi hb
           apply EvOk_catchLanding
-          · intro hl; exact hb k rfl hl
+          · intro hl; exact (hb k rfl hl).1
           · intro h0; exact hi (by rw [hev]; exact h0)
 
 end NV.C04
